@@ -187,6 +187,46 @@ pub fn probes(tier: &str) -> Vec<Probe> {
             p.push(Probe::Uncompact(vec![c5, c12, c29], t));
         }
     }
+    // long runs of consecutive cells, aligned and unaligned, as compact / uncompact inputs: every
+    // output must be a canonical id (block-wise shortcuts that build ids arithmetically)
+    for l in crate::checks::longlists::compact_inputs_for_totality(tier) {
+        let r = rc::resolution(l[0]).unwrap();
+        p.push(Probe::Uncompact(l.clone(), r));
+        p.push(Probe::Uncompact(l.iter().copied().step_by(5).collect(), r + 1));
+        p.push(Probe::Compact(l));
+    }
+    // numeric neighbours of the first and the last cell of every resolution, of a face and of a
+    // quintant (one stride above / below): some are cells, some are not; alone, before and after a
+    // valid cell, with the target equal to their apparent resolution and one finer
+    for r in 0..=29 {
+        let stride = 1u64 << (rc::marker_pos(r) + if r >= 2 { 1 } else { 0 });
+        let cells = |f: u64, code: u64, last: bool| -> Option<u64> {
+            let q = (code + rc::FIRST[f as usize]) % 5;
+            let s = if r >= 2 && last { (1u64 << (2 * (r - 1))) - 1 } else { 0 };
+            rc::encode(rc::Tuple { face: f, quintant: if r == 0 { 0 } else { q }, s, res: r })
+        };
+        let mut anchors: Vec<u64> = Vec::new();
+        for (f, code, last) in [(0u64, 0u64, false), (11, 4, true), (5, 4, true), (6, 0, false), (3, 2, true), (3, 3, false)] {
+            if let Some(c) = cells(f, code, last) {
+                anchors.push(c);
+            }
+        }
+        for &a in &anchors {
+            for nb in [a.wrapping_add(stride), a.wrapping_sub(stride), a.wrapping_add(2 * stride)] {
+                for t in [r, r + 1] {
+                    if t > 29 {
+                        continue;
+                    }
+                    p.push(Probe::Uncompact(vec![a, nb], t));
+                    p.push(Probe::Uncompact(vec![nb, a], t));
+                    p.push(Probe::Uncompact(vec![nb], t));
+                    p.push(Probe::Uncompact(vec![a, a, nb, a], t));
+                }
+                p.push(Probe::Compact(vec![a, nb]));
+                p.push(Probe::Compact(vec![nb, a]));
+            }
+        }
+    }
     let lats = [90.0, -90.0, 90.0 - 1e-9, -90.0 + 1e-9, 89.99, -89.99, 0.0, 45.0, -45.0];
     let lons = [0.0, 180.0, -180.0, 360.0, -360.0, 540.0, -540.0, 1e6, -1e6, 1e15];
     for &lat in &lats {
